@@ -161,7 +161,11 @@ def degrees(x):
 def fabs(x):
     if not _sym(x):
         return _m.fabs(x)
-    return abs(x)
+    # fork on the sign (usually decided by the path condition already): keeps If-terms out of the
+    # nonlinear queries that follow (arc radii)
+    if C.cur().branch(x.t >= 0):
+        return x
+    return -x
 
 
 def isfinite(x):
